@@ -42,6 +42,8 @@ type Workload struct {
 	Writer  string    `json:"writer"` // fast | gosched | sleep | gate
 	Sync    bool      `json:"sync_writer"`
 	Toggle  bool      `json:"togglers"`
+	Trigger bool      `json:"trigger_writer,omitempty"` // the destination sits behind a *TriggerLevelWriter that lets everything through (its own mutex covers WriteLevel only)
+	Plain   int       `json:"plain_writers,omitempty"`  // with SyncWriter: goroutines that use the writer as a plain io.Writer (the standard library logger), 3 lines each
 	Closer  bool      `json:"closer,omitempty"`         // with SyncWriter: another goroutine calls Close on it meanwhile (as Logger.Fatal or a shutdown path would); Close is a call on the wrapped writer too
 	Console bool      `json:"console_writer,omitempty"` // a ConsoleWriter sits between the logger and the destination
 	ConsNew bool      `json:"console_new,omitempty"`    // ... built by NewConsoleWriter with FieldsOrder and FieldsExclude (fresh per run: every goroutine's first Write races the others')
@@ -51,6 +53,7 @@ type Workload struct {
 type checkWriter struct {
 	console  bool
 	consNew  bool
+	trigger  bool
 	mode     string
 	mu       sync.Mutex
 	got      [][]byte
@@ -139,6 +142,9 @@ func loggers(w *checkWriter, syncW bool) []*zerolog.Logger {
 			})
 		}
 	}
+	if w.trigger && !w.console {
+		dst = &zerolog.TriggerLevelWriter{Writer: dst, ConditionalLevel: zerolog.Level(-100), TriggerLevel: zerolog.Level(-100)}
+	}
 	if syncW {
 		lastSync = zerolog.SyncWriter(dst)
 		out = zerolog.New(lastSync)
@@ -178,7 +184,7 @@ func run(wl *Workload) (msg string, nontrivial bool) {
 	defer restore()
 	// expected: each chain alone
 	var want []string
-	solo := &checkWriter{mode: "fast", console: wl.Console, consNew: wl.ConsNew}
+	solo := &checkWriter{mode: "fast", console: wl.Console, consNew: wl.ConsNew, trigger: wl.Trigger}
 	sl := loggers(solo, false)
 	oldGlobal := zlog.Logger
 	defer func() { zlog.Logger = oldGlobal }()
@@ -203,7 +209,7 @@ func run(wl *Workload) (msg string, nontrivial bool) {
 		}
 	}
 	// concurrent
-	w := &checkWriter{mode: wl.Writer, gate: make(chan struct{}), console: wl.Console, consNew: wl.ConsNew}
+	w := &checkWriter{mode: wl.Writer, gate: make(chan struct{}), console: wl.Console, consNew: wl.ConsNew, trigger: wl.Trigger}
 	ls := loggers(w, wl.Sync)
 	zlog.Logger = *ls[3]
 	var wg sync.WaitGroup
@@ -236,6 +242,22 @@ func run(wl *Workload) (msg string, nontrivial bool) {
 				runtime.Gosched()
 			}
 		}()
+	}
+	if wl.Sync && !wl.Console {
+		for pg := 0; pg < wl.Plain; pg++ {
+			for i := 0; i < 3; i++ {
+				want = append(want, fmt.Sprintf("plain line %d-%d through the standard library logger\n", pg, i))
+			}
+			sw := lastSync
+			wg.Add(1)
+			go func(pg int) {
+				defer wg.Done()
+				<-start
+				for i := 0; i < 3; i++ {
+					sw.Write([]byte(fmt.Sprintf("plain line %d-%d through the standard library logger\n", pg, i)))
+				}
+			}(pg)
+		}
 	}
 	if wl.Sync && wl.Closer {
 		sw := lastSync
@@ -314,6 +336,10 @@ func genWorkload(rt *rapid.T, maxG int) *Workload {
 	wl := &Workload{Writer: rapid.SampledFrom([]string{"fast", "gosched", "sleep", "gate"}).Draw(rt, "writer"), Sync: rapid.IntRange(0, 2).Draw(rt, "sync") == 0, Toggle: rapid.Bool().Draw(rt, "toggle"),
 		Console: rapid.IntRange(0, 3).Draw(rt, "console") == 0}
 	wl.Closer = wl.Sync && rapid.Bool().Draw(rt, "closer")
+	wl.Trigger = !wl.Console && rapid.IntRange(0, 2).Draw(rt, "trigger") == 0
+	if wl.Sync && !wl.Console {
+		wl.Plain = rapid.IntRange(0, 2).Draw(rt, "plain")
+	}
 	wl.ConsNew = wl.Console && rapid.Bool().Draw(rt, "consnew")
 	ng := rapid.IntRange(2, maxG).Draw(rt, "G")
 	for i := 0; i < ng; i++ {
